@@ -32,6 +32,14 @@ type SessSpec struct {
 	PauseMs    int    `json:"pause_ms"`    // slow reader: initial pause of the reader
 	StartMs    int    `json:"start_ms"`    // delay before Dial
 	Seed       uint64 `json:"seed"`        // content and size choices
+	Msgs       int    `json:"msgs,omitempty"`     // exact-up/exact-down/close-race: number of one-segment Writes of the sending side
+	MsgSize    int    `json:"msg_size,omitempty"` // ... and their size
+	Unpaced    int    `json:"unpaced,omitempty"`  // exact-*: the first Unpaced messages are written back to back, the rest one per PaceMs
+	PaceMs     int    `json:"pace_ms,omitempty"`
+	ArmAfter   int    `json:"arm_after,omitempty"` // close-race: the client socket starts stalling after this many messages
+	Variant    int    `json:"variant,omitempty"`   // close-race: 1 = client Close while the output loop stalls in WriteTo of a data datagram;
+	// 2 = the server closes first, the client's input loop stalls in WriteTo of the close session response (holding the output lock),
+	// the client's output loop and a client Write queue up behind it, then the client application calls Close
 }
 
 type Schedule struct {
@@ -53,6 +61,8 @@ type Schedule struct {
 	BudgetMin   int        `json:"budget_min"` // virtual minutes
 	FateSeed    uint64     `json:"fate_seed"`
 	ServerFirst bool       `json:"server_first"` // the server application starts right after Accept (otherwise after 1 ms of virtual time)
+	SlowSock    bool       `json:"slow_sock,omitempty"` // the client socket is wrapped: WriteTo of a data datagram sleeps StallMs (like a full socket buffer) once armed
+	StallMs     int        `json:"stall_ms,omitempty"`
 	Procs       int        `json:"procs"`        // GOMAXPROCS during this schedule (1 is three times cheaper under faketime; 2 gives real parallelism)
 }
 
@@ -221,6 +231,9 @@ func (g *gen) sessions(s *Schedule, total int, multi bool) {
 
 var kinds = []string{"drop", "dup", "delay"}
 
+// fault kinds of the exhaustive family: "dup-now" delivers the second copy right behind the original (1 ms), "dup" 25 ms later
+var exKinds = []string{"drop", "dup-now", "dup", "delay"}
+
 // scripted single faults (family a)
 func (g *gen) scripted(total int, target string, kind string, multi bool) *Schedule {
 	s := g.base("scripted")
@@ -289,12 +302,13 @@ func (g *gen) random(total int, multi bool, maxLoss int) *Schedule {
 
 // the short session of family (b): one small request, one small response
 func shortSession(r *vh.Rng, variant int) (SessSpec, int, int) {
-	x := SessSpec{Shape: "reqresp", Rounds: 1, CBytes: r.Range(20, 200), SBytes: r.Range(20, 400), MaxWrite: 200 * 1024, ReadStyle: 1, Seed: r.U64()}
-	x.FirstWrite = x.CBytes
+	// three request/response rounds: after a fault at any position of the first two rounds application data still flows in BOTH directions
+	x := SessSpec{Shape: "reqresp", Rounds: 3, CBytes: r.Range(60, 300), SBytes: r.Range(60, 600), MaxWrite: 200 * 1024, ReadStyle: 1, Seed: r.U64()}
+	x.FirstWrite = 0
 	mtu, le := 1400, 0
 	switch variant {
 	case 1: // request larger than the open request can carry, two fragments back
-		x.CBytes, x.FirstWrite, x.SBytes = 1500, 1500, 2000
+		x.CBytes, x.FirstWrite, x.SBytes = 2500, 1500, 3000
 		mtu = 1280
 	case 2: // low entropy
 		le = 2
@@ -315,6 +329,68 @@ func (g *gen) exhaustiveFault(base *Schedule, i int, kind string) *Schedule {
 	s := *base
 	s.ID = fmt.Sprintf("e%04d", g.n)
 	s.Sessions = append([]SessSpec(nil), base.Sessions...)
-	s.Faults = []*Fault{{Target: "index", Side: -1, K: i, Kind: kind, DelayMs: 45}}
+	s.Faults = []*Fault{{Target: "index", Side: -1, K: i, Kind: kind, DelayMs: 25}}
+	if kind == "dup-now" {
+		s.Faults[0].Kind, s.Faults[0].DelayMs = "dup", 1
+	}
+	if kind == "delay" {
+		s.Faults[0].DelayMs = 45
+	}
 	return &s
+}
+
+// the receive window closes EXACTLY (nothing in flight at the sender when the backlog reaches segmentTreeCapacity) and is
+// reopened only by the receiver's heartbeat ack: one-segment messages, the last ones paced one per round trip; the receiving
+// application does not read until its endpoint has advertised window 0, then reads everything
+func (g *gen) exact(up bool, kind string) *Schedule {
+	s := g.base("exact")
+	s.ID = "x" + s.ID[1:]
+	s.LEMode, s.LERot = 0, 0
+	s.LatencyMs = g.r.Range(1, 4)
+	s.LingerMs = 50
+	shape := "exact-up"
+	if !up {
+		shape = "exact-down"
+	}
+	x := SessSpec{Shape: shape, Seed: g.r.U64(), MaxWrite: 64, ReadStyle: 1, MsgSize: g.r.Range(8, 48), Msgs: 4096 + 8,
+		Unpaced: g.r.Range(3000, 3800), PaceMs: 2*s.LatencyMs + g.r.Range(6, 12)}
+	if up {
+		x.CBytes, x.SBytes, x.FirstWrite = x.Msgs*x.MsgSize, g.r.Range(1, 16), x.MsgSize
+	} else {
+		x.SBytes, x.CBytes, x.FirstWrite = x.Msgs*x.MsgSize, g.r.Range(1, 16), 0
+	}
+	s.Sessions = []SessSpec{x}
+	if kind != "" {
+		side := 1
+		if !up {
+			side = 0
+		}
+		s.Faults = []*Fault{{Target: "reopen", Side: side, Kind: kind, DelayMs: 3*s.LatencyMs + 20}}
+	}
+	s.BudgetMin = 3
+	return s
+}
+
+// Close is called on the client while a client Write is in progress and the output loop sits in a slow WriteTo (holding the
+// output lock): the close session request and the data fragment compete for the next sequence number
+func (g *gen) closeRace() *Schedule {
+	s := g.base("closerace")
+	s.ID = "c" + s.ID[1:]
+	s.LEMode, s.LERot = 0, 0
+	s.LatencyMs = g.r.Range(1, 5)
+	s.LingerMs = 0
+	s.SlowSock, s.StallMs = true, g.r.Range(3, 8)
+	s.Procs = 2 // the race needs real parallelism between the woken Close and the output loop (more Ps make faketime very slow)
+	x := SessSpec{Shape: "close-race", Seed: g.r.U64(), MaxWrite: 1024, ReadStyle: 1, MsgSize: g.r.Range(300, 1000), Msgs: g.r.Range(6, 30),
+		FirstWrite: g.r.Range(1, 64)}
+	x.ArmAfter = g.r.Range(1, x.Msgs-2)
+	x.Variant = 1 // variant 2 is kept for -only replays; it rarely gets the data fragment onto the wire (the closed server stops acknowledging)
+	if x.Variant == 2 {
+		x.Msgs += 40 // the writer must still be writing when the server's close request arrives
+		s.StallMs = g.r.Range(4, 9)
+	}
+	x.CBytes, x.SBytes = x.FirstWrite+x.Msgs*x.MsgSize, g.r.Range(1, 16)
+	s.Sessions = []SessSpec{x}
+	s.BudgetMin = 2
+	return s
 }
